@@ -2,7 +2,8 @@
    (ocaml/drv_wire2.ml).  ExtrOcamlBasic only; Z, positive, nat stay the extracted inductive
    types.  Append the functions of new formats to the list. *)
 From Coq Require Extraction ExtrOcamlBasic.
-From SV Require Import Lib.Base Model.WireBase Model.WireIgmp Model.WireIpv6Frag Model.WireIpv6Ext.
+From SV Require Import Lib.Base Model.WireBase Model.WireIgmp Model.WireIpv6Frag Model.WireIpv6Ext
+  Model.WireIcmpv6Hdr Model.WireMld.
 Extraction Language OCaml.
 Cd "../ocaml/gen".
 Extraction "wire2_model.ml"
@@ -12,5 +13,11 @@ Extraction "wire2_model.ml"
   v6frag_check_len v6frag_frag_offset v6frag_more_frags v6frag_ident_ v6frag_parse v6frag_buffer_len
   v6frag_emit v6frag_wf
   v6ext_check_len v6ext_next_header v6ext_header_len v6ext_payload v6ext_parse v6ext_buffer_len
-  v6ext_emit v6ext_emit_full v6ext_total_len v6ext_wf.
+  v6ext_emit v6ext_emit_full v6ext_total_len v6ext_wf
+  icmp6h_check_len icmp6h_msg_type icmp6h_msg_code icmp6h_checksum icmp6h_header_len icmp6h_payload
+  icmp6h_verify_checksum
+  mld_max_resp_code mld_mcast_addr mld_s_flag mld_qrv mld_qqic mld_num_srcs mld_nr_mcast_addr_rcrds
+  mldrec_check_len mldrec_record_type mldrec_aux_data_len mldrec_num_srcs_ mldrec_mcast_addr mldrec_payload_
+  mldrec_parse mldrec_buffer_len mldrec_emit mldrec_wf
+  mld_parse mld_buffer_len mld_emit mld_icmp_emit mld_icmp_parse mld_wf mld_canon.
 Cd "../../coq".
